@@ -161,7 +161,9 @@ return tm
 	},
 	// w3: for the settings-change route: call parameter COUNT (type 10) next to call parameter TYPE (type 24: the annotated
 	// function is a global called from inside another function - that is where the cross-file passes compare the annotated
-	// parameter types), plus 2, 4, 9, 15, 16. rets.lua is an attempt at types 25 / 27 (return type, operand types) that the
+	// parameter types), plus 2, 4, 9, 15, 16. `miscounts` holds calls with a WRONG argument count (too many; too few against
+	// an annotated callee) whose argument types ALSO mismatch the annotations: the count diagnostic (10) is all the
+	// everything-enabled run reports there, so with 10 switched off nothing may appear on those lines. rets.lua is an attempt at types 25 / 27 (return type, operand types) that the
 	// server does not report; it stays as an ordinary file.
 	"w3": {
 		"calls/ptype.lua": `---@param n number
@@ -182,6 +184,21 @@ local x3 = takesOne(1)
 local p3 = x3 or true
 local q3 = x3 and false
 print(p3, q3)
+
+---@param a number
+---@param b string
+function takesTwo(a, b)
+	return a, b
+end
+
+function miscounts()
+	takesNumber("text", 2)
+	takesTwo("bad")
+	takesTwo("bad", "x", 3)
+	takesTwo(5, 6, 7, 8)
+	takesTwo(1, "x")
+	takesTwo("bad", "x")
+end
 `,
 		"rets.lua": `---@return number
 function retsNumber()
